@@ -206,6 +206,47 @@ def run_chunk(shapes, kf_active):
     return res
 
 
+SOURCE_FILE = "/repo/src/inline_snapshot/_source_file.py"
+
+
+def run_format_kernel(k):
+    """SourceFile._format / _token_to_code's strip on a string literal with k arbitrary *plain* characters, with the
+    formatter modelled as `identity + trailing newline` (what black does to `_ = "<plain text>"`): the code that is
+    handed back must be exactly the literal - for every content (e.g. content that looks like the helper prefix)."""
+    import types
+
+    ns = SS.load(SOURCE_FILE, {"_format"}, extra_ns={
+        "enforce_formatting": lambda: False,
+        "_is_string_literal": lambda text: True,  # contract: the input is a lone string literal
+        "format_code": lambda text, filename: text + "\n",
+        "Path": lambda p: p,
+    })
+    fmt = ns["_format"]
+    me = types.SimpleNamespace(_source=types.SimpleNamespace(filename="test_a.py"))
+
+    def make():
+        chars = [34]
+        cons = []
+        for i in range(k):
+            v = z3.Int(f"p{i}")
+            chars.append(v)
+            cons += [v >= 32, v <= 126, v != 34, v != 92]
+        chars.append(34)
+        return SymStr(chars), cons
+
+    st = SS.explore(make, lambda text: fmt(me, text).strip(), lambda text, out: out == text)
+    PathLog.record(f"format{k}", nontrivial=True, sample={"kernel": "SourceFile._format on a string literal", "plain_characters": k, "paths": st["paths"], "queries": st["queries"]})
+    res = {"paths": st["paths"], "solver": {"solver_queries": st["queries"], "solver_s": round(st["qtime"], 2), "unknown": 0},
+           "path_log": {"entries": len(PathLog.entries), "distinct": sorted(set(PathLog.entries)), "nontrivial": sorted(PathLog.nontrivial), "samples": PathLog.samples},
+           "functions": ["inline_snapshot/_source_file.py:SourceFile._format"]}
+    cex = [c[1] if isinstance(c, tuple) else c for c in st["cex"]]
+    if cex:
+        res.update({"status": "refuted", "cex": {"args": [cex[0]], "kwargs": {}}, "cex_message": f"_format does not hand back the literal {cex[0]!r}", "cex_kind": "STRSYM"})
+    else:
+        res["status"] = "confirmed"
+    return res
+
+
 def all_shapes(tier):
     alphabet = [None] + DICT
     shapes = []
@@ -234,6 +275,9 @@ def conditions(tier):
             continue
         conds.append(Cond(f"strsym_chunk{i:02d}", (lambda ch=ch: run_chunk(ch, kf_active)), custom=True, timeout=1500, group="strsym",
                           bounds=f"{len(ch)} segment shapes (of {len(shapes)}); each segment an arbitrary code point 0..0x10FFFF or one of {DICT!r}"))
+    for k in (4, 6) if tier == "quick" else (4, 6, 8):
+        conds.append(Cond(f"format_literal_k{k}", (lambda k=k: run_format_kernel(k)), custom=True, timeout=900, group="format-kernel",
+                          bounds=f"SourceFile._format on a double-quoted literal of {k} arbitrary plain characters (32..126 without quote and backslash); formatter modelled as identity + newline"))
     from harness import c12b
 
     conds += c12b.conditions(tier)
@@ -242,6 +286,19 @@ def conditions(tier):
 
 def replay(tier, condname, cex):
     """R: the real, unrewritten functions on the concrete model."""
+    if condname.startswith("format_literal"):
+        # R: the literal through the real _value_to_code (real black)
+        lit = cex["args"][0]
+        s = ast.literal_eval(lit)
+        from vlib import world
+
+        world.install_plugin_shims()
+        world.W.concrete = True
+        world.reset({"obs": s})
+        r = world.plugin_session("from inline_snapshot import snapshot\n\ndef test_a():\n    assert obs == snapshot()\n", cli="create")
+        new = world.text_after(r)
+        ok = world.passes_when_disabled(new)
+        return {"violated": not ok, "detail": repr(world.snapshot_arg_sources(new))}
     if condname.startswith("strsym"):
         from inline_snapshot._utils import triple_quote, value_to_token
 
